@@ -177,13 +177,13 @@ def class_level_state(drop):
         for name, val in sorted(vars(mod).items(), key=lambda x: x[0]):
             if name.startswith("__"):
                 continue
-            if isinstance(val, (list, dict, set)):
+            if isinstance(val, (list, dict, set, tuple)) or type(val).__name__ == "ValueType":
                 out.append((mn, name, canon(val, 4, frozenset(), drop)))
             elif isinstance(val, type) and val.__module__ == mn:
                 for an, av in sorted(vars(val).items(), key=lambda x: x[0]):
                     if an.startswith("__") or an in SKIP_ATTRS or an in drop:
                         continue
-                    if isinstance(av, (list, dict, set)):
+                    if isinstance(av, (list, dict, set, tuple)) or type(av).__name__ == "ValueType":
                         out.append((mn, name + "." + an, canon(av, 5, frozenset(), drop)))
                     elif isinstance(av, (bool, int, str)) and not callable(av):
                         out.append((mn, name + "." + an, av))
